@@ -6,5 +6,3 @@ import IweModel.Props.C13
 #print axioms Iwe.C13.key_range_is_destination_partial
 #print axioms Iwe.C13.crlf_counterexample
 #print axioms Iwe.C13.multibyte_counterexample
-#print axioms Iwe.Position.locate_go_eq_lspPos
-#print axioms Iwe.Position.locate_lineStarts_eq_specPos
